@@ -144,11 +144,12 @@ def check_svh(item, acc):
     from hypergraphx import Hypergraph
     from hypergraphx.filters import get_svh
 
-    nodes, edges, weights, max_order, mp = item
+    nodes, edges, weights, max_order, mp = item[:5]
+    second_call = len(item) > 5 and item[5]
     h = Hypergraph(weighted=True)
     for e, wt in zip(edges, weights):
         h.add_edge(e, weight=wt)
-    w = {"kind": "svh", "edges": [list(e) for e in edges], "weights": list(weights), "max_order": max_order, "mp": mp}
+    w = {"kind": "svh", "edges": [list(e) for e in edges], "weights": list(weights), "max_order": max_order, "mp": mp, "second_call": second_call}
     size = len(edges)
     acc.evaluations += 1
 
@@ -156,6 +157,11 @@ def check_svh(item, acc):
         acc.violations.append(Violation("svh/%s" % what, "%s; edges %r weights %r max_order=%d mp=%s" % (msg, edges, weights, max_order, mp), w, size))
 
     try:
+        if second_call:
+            # a first call on the same object with other weights: nothing of it may survive into the second call
+            get_svh(h, max_order=max_order, mp=False)
+            weights = tuple(w0 + 2 for w0 in weights[:1]) + tuple(weights[1:])
+            h.set_weight(edges[0], weights[0])
         res = get_svh(h, max_order=max_order, mp=mp)
     except Exception as e:
         return bad("exception", "get_svh raised %s: %s" % (type(e).__name__, e))
@@ -231,6 +237,10 @@ def svh_corpus(tier):
         yield ("svh", ((2, 5, 7, 11), ((2, 5), (7, 11)), (w0, w0), 3, False))
         yield ("svh", ((2, 5, 7, 11, 13, 17), ((2, 5), (7, 11), (13, 17)), (w0, w0, w0), 3, False))
         yield ("svh", ((2, 5, 7, 11, 13, 17), ((2, 5, 7), (11, 13, 17)), (w0, w0), 3, False))
+    # second call on the same object after a weight change
+    for es in itertools.combinations(cands[:6], 2):
+        for ws in ((1, 1), (2, 3), (3, 1)):
+            yield ("svh", (U, es, ws, 3, False, True))
     # heavier weights: validated sets become non-trivial
     for es in itertools.combinations(cands[:6], 3):
         for ws in ((9, 1, 1), (1, 12, 1), (6, 6, 1), (20, 1, 2)):
@@ -285,7 +295,10 @@ def replay(witness, key=None):
 
     acc = Acc()
     if witness.get("kind") == "svh":
-        check_svh((None, tuple(tuple(e) for e in witness["edges"]), tuple(witness["weights"]), witness["max_order"], witness["mp"]), acc)
+        wts = list(witness["weights"])
+        if witness.get("second_call"):
+            wts[0] -= 2
+        check_svh((None, tuple(tuple(e) for e in witness["edges"]), tuple(wts), witness["max_order"], witness["mp"], witness.get("second_call", False)), acc)
     else:
         check_filter(C.from_show(witness["desc"]), acc)
     hit = [v for v in acc.violations if key is None or v.key == key or PROP + "/" + v.key == key]
